@@ -17,7 +17,13 @@ func MakeVirtualHostBucketAddressingMiddleware(baseEndpoint string, next http.Ha
 		if hostname != baseEndpoint && strings.HasSuffix(hostname, endpointSuffix) {
 			bucket := strings.TrimSuffix(hostname, endpointSuffix)
 			if bucket != "" {
-				r.URL.Path = strings.TrimSuffix("/"+bucket+r.URL.Path, "/")
+				if r.URL.Path == "" || r.URL.Path == "/" {
+					// bucket root
+					r.URL.Path = "/" + bucket
+				} else {
+					// keep the key byte-for-byte, including trailing slashes
+					r.URL.Path = "/" + bucket + r.URL.Path
+				}
 			}
 		}
 		next.ServeHTTP(w, r)
